@@ -672,17 +672,25 @@ def flex_layout(context, box, bottom_space, skip_stack, containing_block, page_i
                         child.margin_bottom = margin_size
             free_space = min(free_space, 0)
 
+        line_justify_content = justify_content
+        if free_space < 0:
+            # Fallback alignments when items overflow
+            if 'space-between' in justify_content:
+                line_justify_content = ('flex-start',)
+            elif {'space-around', 'space-evenly'} & set(justify_content):
+                line_justify_content = ('center',)
+
         if box.style['direction'] == 'rtl' and main == 'width':
             free_space *= -1
 
         # 12.2 Align the items along the main-axis per justify-content.
-        if {'end', 'flex-end', 'right'} & set(justify_content):
+        if {'end', 'flex-end', 'right'} & set(line_justify_content):
             position_main += free_space
-        elif 'center' in justify_content:
+        elif 'center' in line_justify_content:
             position_main += free_space / 2
-        elif 'space-around' in justify_content:
+        elif 'space-around' in line_justify_content:
             position_main += free_space / len(line) / 2
-        elif 'space-evenly' in justify_content:
+        elif 'space-evenly' in line_justify_content:
             position_main += free_space / (len(line) + 1)
 
         growths = sum(child.style['flex_grow'] for child in children)
@@ -700,12 +708,12 @@ def flex_layout(context, box, bottom_space, skip_stack, containing_block, page_i
             if box.style['direction'] == 'rtl' and main == 'width':
                 margin_main *= -1
             position_main += margin_main
-            if 'space-around' in justify_content:
+            if 'space-around' in line_justify_content:
                 position_main += free_space / len(line)
-            elif 'space-between' in justify_content:
+            elif 'space-between' in line_justify_content:
                 if len(line) > 1:
                     position_main += free_space / (len(line) - 1)
-            elif 'space-evenly' in justify_content:
+            elif 'space-evenly' in line_justify_content:
                 position_main += free_space / (len(line) + 1)
 
     # 13 Resolve cross-axis auto margins.
